@@ -54,7 +54,8 @@ def tag_coords(natom, mag, digits, unit):
     step = 10.0 ** (-digits) * 7
     for i in range(natom):
         for k in range(3):
-            base = {"small": 1.0, "negwide": -900.0, "wide": 9000.0, "mixed": (-1) ** (i + k) * 3.0}[mag]
+            base = {"small": 1.0, "negwide": -900.0, "wide": 9000.0, "mixed": (-1) ** (i + k) * 3.0,
+                    "huge": (-1) ** (i + k) * 15000.0}[mag]      # beyond +-10^4: only for formats without fixed coordinate columns
             v = base + (3 * i + k) * step          # towards zero for negative bases: stays inside the field width
             out[i, k] = round(v, digits)
     return out * unit
@@ -143,7 +144,10 @@ def build(fmt, rng, natom, present, mag):
         return IOData(**kw)
     if fmt == "poscar":
         cell = np.array([[31.0, 0.0, 0.0], [1.5, 33.0, 0.0], [0.25, -0.5, 37.0]]) * ANG
-        kw = dict(atnums=elements(rng, natom, [1, 8, 6, 26, 8, 1, 14]), atcoords=tag_coords(natom, "small", 6, ANG), cellvecs=cell)
+        atn = elements(rng, natom, [1, 8, 6, 26, 8, 1, 14])
+        if natom > 10000:
+            atn = np.array([8, 6] + [1] * (natom - 2))        # more than 9999 atoms of an element that is not the heaviest
+        kw = dict(atnums=atn, atcoords=tag_coords(natom, "small", 6, ANG), cellvecs=cell)
         if "title" in P:
             kw["title"] = f"tagged poscar {natom}"
         return IOData(**kw)
@@ -161,6 +165,7 @@ def build(fmt, rng, natom, present, mag):
     if fmt == "fcidump":
         from iodata.utils import set_four_index_element
         n = max(1, min(natom, 5))
+        mag_seed = rng.randint(0, 10**6)
         one = np.zeros((n, n))
         for i in range(n):
             for j in range(i + 1):
@@ -173,7 +178,15 @@ def build(fmt, rng, natom, present, mag):
                     for m in range(n):
                         if two[i, j, k, m] == 0.0:
                             c += 1
-                            set_four_index_element(two, i, j, k, m, 0.25 + 0.001 * c)
+                            # sparse tensors (model Hamiltonians): in two of three objects most symmetry-unique integrals vanish
+                            if mag_seed % 3 == 2:
+                                # exactly two non-vanishing symmetry-unique integrals, anywhere in the list
+                                nuniq = (n * (n + 1) // 2) * (n * (n + 1) // 2 + 1) // 2
+                                keep = c in (1 + mag_seed % nuniq, 1 + (mag_seed // 7) % nuniq)
+                            else:
+                                keep = (mag_seed % 3 == 0) or ((c * 7 + mag_seed) % 5 == 0)
+                            if keep:
+                                set_four_index_element(two, i, j, k, m, 0.25 + 0.001 * c)
         kw = dict(one_ints={"core_mo": one}, two_ints={"two_mo": two})
         if "core_energy" in P:
             kw["core_energy"] = -7.123456789012345
@@ -196,7 +209,7 @@ def build(fmt, rng, natom, present, mag):
         if "atmasses" in P:
             kw["atmasses"] = np.array([(1.0 + 0.37 * i) * UNIT["amu"] for i in range(natom)])
         if "bonds" in P and natom >= 2:
-            kw["bonds"] = chain_bonds(natom, [1, 2, 3])
+            kw["bonds"] = chain_bonds(natom, [1, 2, 3, 4, 5])      # incl. the aromatic and amide types of the bond-type table
         if "g_rot" in P:
             kw["g_rot"] = 2.0
         return IOData(**kw)
@@ -326,7 +339,7 @@ ALWAYS = {
 }
 SIZES = {"xyz": [1, 2, 9, 10, 99, 100, 999, 1000, 9999, 10000, 12000], "xyz_columns": [1, 2, 3, 10, 100, 1000], "sdf": [1, 2, 9, 10, 99, 100, 101, 500, 999],
          "mol2": [1, 2, 9, 10, 99, 100, 999, 1000, 9999, 10000], "pdb": [1, 2, 9, 10, 99, 100, 999, 1000, 9999, 10000, 12000],
-         "poscar": [1, 2, 5, 8, 30], "cube": [1, 2, 3, 4, 5, 6, 12], "fcidump": [1, 2, 3, 4, 5], "json_qcschema": [1, 2, 9, 10, 100, 1000],
+         "poscar": [1, 2, 5, 8, 30, 10020], "cube": [1, 2, 3, 4, 5, 6, 12], "fcidump": [1, 2, 3, 4, 5], "json_qcschema": [1, 2, 9, 10, 100, 1000],
          "json_qcschema_input": [1, 2, 3, 4, 5, 6, 7, 12], "json_qcschema_output": [1, 2, 3, 4, 5, 6, 7, 12],
          "fchk": [1, 2, 3, 4], "molden": [1, 2, 3, 4], "molekel": [1, 2, 3], "wfn": [1, 2, 3, 4], "wfx": [1, 2, 3, 4]}
 
@@ -435,13 +448,13 @@ def plan(run, rng, stores):
                 subsets = [list(s) for n in range(len(opts) + 1) for s in itertools.combinations(opts, n)]
         else:
             subsets += [rng.sample(opts, max(1, len(opts) // 2)) for _ in range(3)]
-        sizes = SIZES[fmt] if run.thorough() else [s for s in SIZES[fmt] if s <= 1000]
+        sizes = SIZES[fmt] if run.thorough() else [s for s in SIZES[fmt] if s <= 1000 or (fmt == "poscar" and s == 10020)]
         if run.thorough():
             # every pair and triple of optional attributes, random sizes between the boundaries
             subsets += [list(p) for p in itertools.combinations(opts, 3)] if len(opts) > 10 else []
             top = min(max(sizes), 1200)
             sizes = list(sizes) + sorted({rng.randint(1, top) for _ in range(8)} - set(sizes))
-        mags = ["small", "negwide", "wide", "mixed"]
+        mags = ["small", "negwide", "wide", "mixed"] + (["huge"] if fmt in ("xyz", "xyz_columns", "mol2", "json_qcschema", "fchk", "wfx") else [])
         for i, sub in enumerate(subsets):
             for j, n in enumerate(sizes if i < 2 else ([rng.choice(sizes[:6])] if not run.thorough() else rng.sample(sizes, min(3, len(sizes))))):
                 for mag in (mags if (i < 2 and j in (0, len(sizes) - 1)) else [rng.choice(mags)]):
